@@ -20,7 +20,8 @@ import ast
 
 from ..core import AnalysisError, norm, short
 from ..setalg import Universe, SetInterp, Opaque, Unmodelled
-from ..layers import layers_of_var
+from ..layers import layers_of_var, layers_of_value
+from ..astutil import argn, assigned_value
 from . import chain
 from .common import (cfg_of, fkey, conds, has_cond, cond_texts, stmts_of, walk_body, call_tail, call_name, returns_of,
                      raises_of, raise_type, stmt_of, kwarg)
@@ -28,62 +29,115 @@ from .common import (cfg_of, fkey, conds, has_cond, cond_texts, stmts_of, walk_b
 CORE, ROUTE, APP = 'clastic.middleware.core', 'clastic.route', 'clastic.application'
 
 
-def run(rep):
-    repo = rep.repo
-    core, route, app = repo.mod(CORE), repo.mod(ROUTE), repo.mod(APP)
-    rep.decide('R04.a conflict map exhaustive; R04.b reserved-name tables agree; R04.c resources vs reserved; '
-               'R04.d middleware slots / next-first; R04.e next & context placement')
-    rep.decline('nothing of substance: Python raising the exceptions is assumed')
-    rep.rule('R04.a', 'exhaustiveness of the provided_by map; more than one provider => NameError')
-    rep.rule('R04.b', 'set equality between injected built-in names and RESERVED_ARGS')
-    rep.rule('R04.c', 'resources & RESERVED_ARGS non-empty => NameError before binding')
-    rep.rule('R04.d', 'slot tables agree; first parameter next; check_middleware for every middleware')
-    rep.rule('R04.e', 'next forbidden in endpoint/render; context only in render availability')
+def _is_multi(t, pol, name):
+    """The condition (t, pol) says ``len(name) > 1``."""
+    if not (isinstance(t, ast.Compare) and len(t.ops) == 1):
+        return False
+    l, r, op = t.left, t.comparators[0], t.ops[0]
+    ln = 'len(%s)' % name
 
-    # ---- R04.a -----------------------------------------------------------
+    def num(x):
+        return x.value if isinstance(x, ast.Constant) and isinstance(x.value, int) and not isinstance(x.value, bool) else None
+    if norm(l) == ln and num(r) is not None:
+        k = num(r)
+    elif norm(r) == ln and num(l) is not None:
+        k = num(l)
+        op = {ast.Gt: ast.Lt, ast.Lt: ast.Gt, ast.GtE: ast.LtE, ast.LtE: ast.GtE}.get(type(op), type(op))()
+    else:
+        return False
+    if pol is True:
+        return (isinstance(op, ast.Gt) and k == 1) or (isinstance(op, ast.GtE) and k == 2)
+    return (isinstance(op, ast.LtE) and k == 1) or (isinstance(op, ast.Lt) and k == 2)
+
+
+def _parents(root):
+    out = {}
+    for p in ast.walk(root):
+        for ch in ast.iter_child_nodes(p):
+            out[ch] = p
+    return out
+
+
+def check_conflict_map(rep):
+    repo = rep.repo
+    core, route = repo.mod(CORE), repo.mod(ROUTE)
     mwc = core.cls('Middleware')
     prov_attrs = sorted(a for a in mwc.class_attrs if a.endswith('provides'))
     if len(prov_attrs) < 3:
         raise AnalysisError('Middleware provides attributes: %r (floor 3)' % prov_attrs)
     cm = core.func('check_middlewares')
+    cps = cm.params()
     cfg = cfg_of(cm)
-    maps = [norm(s.targets[0]) for s in stmts_of(cm.node) if isinstance(s, ast.Assign) and isinstance(s.value, ast.Call)
-            and call_name(s.value) in ('defaultdict', 'dict') and isinstance(s.targets[0], ast.Name)]
-    maps = [m for m in maps if m != 'args_dict']
+
+    def new_map(v):
+        return (isinstance(v, ast.Call) and call_name(v) in ('defaultdict', 'dict', 'collections.defaultdict', 'OrderedDict')
+                and not any(isinstance(a, ast.Name) and a.id in cps for a in v.args)) or (isinstance(v, ast.Dict) and not v.keys)
+    maps = [norm(s.targets[0]) for s in stmts_of(cm.node) if isinstance(s, ast.Assign) and isinstance(s.targets[0], ast.Name)
+            and new_map(s.value)]
+    maps = sorted(set(m for m in maps if m not in cps))
+    # of several candidates, the provider map is the one whose entries are lists that get appended to
+    if len(maps) > 1:
+        maps = [m for m in maps if any(isinstance(c, ast.Call) and isinstance(c.func, ast.Attribute) and c.func.attr in ('append', 'add')
+                                       and m in norm(c.func.value) for c in walk_body(cm.node))]
     if len(maps) != 1:
         raise AnalysisError('check_middlewares: provider map not identified (%r)' % maps)
     P = maps[0]
-    outer = [s for s in stmts_of(cm.node) if isinstance(s, ast.For) and norm(s.iter) == cm.params()[0]]
+
+    def unwrap(e):
+        while isinstance(e, ast.Call) and call_name(e) in ('list', 'tuple', 'iter') and len(e.args) == 1:
+            e = e.args[0]
+        return e
+    outer = [s for s in stmts_of(cm.node) if isinstance(s, ast.For) and norm(unwrap(s.iter)) == cps[0]]
     if len(outer) != 1:
         raise AnalysisError('check_middlewares: loop over middlewares not found')
     mwv = norm(outer[0].target)
+    par = _parents(cm.node)
 
     def adds_to_map(loop, keyvar):
         for c in ast.walk(loop):
             if isinstance(c, ast.Call) and isinstance(c.func, ast.Attribute) and c.func.attr in ('append', 'add') and \
                     isinstance(c.func.value, ast.Subscript) and norm(c.func.value.value) == P and norm(c.func.value.slice) == keyvar:
                 return c
-            if isinstance(c, ast.Call) and isinstance(c.func, ast.Attribute) and c.func.attr == 'append' and \
+            if isinstance(c, ast.Call) and isinstance(c.func, ast.Attribute) and c.func.attr in ('append', 'add') and \
                     isinstance(c.func.value, ast.Call) and call_tail(c.func.value) == 'setdefault' and norm(c.func.value.func.value) == P \
                     and norm(c.func.value.args[0]) == keyvar:
                 return c
         return None
+
+    def iter_attrs(loop):
+        """Attributes of the middleware a loop walks: ``mw.a`` -> {a}; ``getattr(mw, v)`` with v ranging over a constant
+        tuple of names in an enclosing loop -> those names."""
+        it = unwrap(loop.iter)
+        if isinstance(it, ast.Attribute) and norm(it.value) == mwv:
+            return {it.attr}
+        if isinstance(it, ast.Call) and call_name(it) == 'getattr' and len(it.args) == 2 and norm(it.args[0]) == mwv and \
+                isinstance(it.args[1], ast.Name):
+            cur = par.get(loop)
+            while cur is not None and cur is not outer[0]:
+                if isinstance(cur, ast.For) and norm(cur.target) == it.args[1].id:
+                    vals = repo.try_fold(cur.iter, core)
+                    if isinstance(vals, (tuple, list)) and all(isinstance(v, str) for v in vals):
+                        return set(vals)
+                    return set()
+                cur = par.get(cur)
+        return set()
+    inner_loops = [s for s in ast.walk(outer[0]) if isinstance(s, ast.For) and s is not outer[0]]
     for a in prov_attrs:
-        loops = [s for s in ast.walk(outer[0]) if isinstance(s, ast.For) and norm(s.iter) == '%s.%s' % (mwv, a)]
+        loops = [l for l in inner_loops if a in iter_attrs(l)]
         ok = len(loops) >= 1 and all(adds_to_map(l, norm(l.target)) is not None for l in loops)
         # unconditional inside the middleware loop
         if ok:
-            ocfg = cfg
-            ok = all(cfg.must_pass(cfg.nodes_of(l), cfg.nodes_of(outer[0]), cfg.nodes_of(outer[0]) , normal_only=True) or True for l in loops)
-            ok = ok and all(not has_cond(conds(cm, l), lambda t: True, True) and not has_cond(conds(cm, l), lambda t: True, False) for l in loops)
+            ok = all(not conds(cm, l) for l in loops)
+            ok = ok and all(norm(adds_to_map(l, norm(l.target)).args[0]) == mwv for l in loops)
         rep.check('R04.a', fkey(cm, 'mw.' + a), ok, 'every name in mw.%s is recorded with its provider, unconditionally' % a if ok else
                   'mw.%s is not folded into the conflict map (a duplicate offered through it is silently shadowed)' % a, core,
                   loops[0] if loops else outer[0])
-    src_loops = [s for s in stmts_of(cm.node) if isinstance(s, ast.For) and norm(s.iter) in ('args_dict.items()', 'list(args_dict.items())')]
-    ok = len(src_loops) == 1 and isinstance(src_loops[0].target, ast.Tuple)
+    ad = cps[1] if len(cps) > 1 else 'args_dict'
+    src_loops = [s for s in stmts_of(cm.node) if isinstance(s, ast.For) and norm(unwrap(s.iter)) == '%s.items()' % ad]
+    ok = len(src_loops) == 1 and isinstance(src_loops[0].target, ast.Tuple) and len(src_loops[0].target.elts) == 2
     if ok:
         srcv, listv = [norm(x) for x in src_loops[0].target.elts]
-        inner = [s for s in ast.walk(src_loops[0]) if isinstance(s, ast.For) and norm(s.iter) == listv]
+        inner = [s for s in ast.walk(src_loops[0]) if isinstance(s, ast.For) and norm(unwrap(s.iter)) == listv]
         ok = len(inner) == 1 and adds_to_map(inner[0], norm(inner[0].target)) is not None and \
             norm(adds_to_map(inner[0], norm(inner[0].target)).args[0]) == srcv
         ok = ok and cfg.must_pass(cfg.nodes_of(src_loops[0]), cfg.entry, cfg.exit, normal_only=True)
@@ -93,28 +147,44 @@ def run(rep):
     # conflicts => NameError
     rz = [r for r in raises_of(cm) if raise_type(r) == 'NameError']
     ok = False
+    built_by = []
     for r in rz:
         for t, p in conds(cm, r):
             if p is True and isinstance(t, ast.Name):
-                srcs = [s.value for s in stmts_of(cm.node) if isinstance(s, ast.Assign) and norm(s.targets[0]) == t.id]
-                for v in srcs:
-                    if isinstance(v, (ast.ListComp, ast.DictComp, ast.SetComp, ast.GeneratorExp)) and P + '.items()' in norm(v.generators[0].iter):
-                        flt = [norm(i) for i in v.generators[0].ifs]
+                # the list of conflicts: the entries of the provider map with more than one provider -- comprehension ...
+                for st_, v, idx in assigned_value(cm.node, t.id):
+                    if idx is None and isinstance(v, (ast.ListComp, ast.DictComp, ast.SetComp, ast.GeneratorExp)) and \
+                            norm(unwrap(v.generators[0].iter)) == P + '.items()':
                         tv = v.generators[0].target
                         if isinstance(tv, ast.Tuple) and len(tv.elts) == 2:
                             ps_ = norm(tv.elts[1])
-                            if flt in (['len(%s) > 1' % ps_], ['len(%s) >= 2' % ps_], ['1 < len(%s)' % ps_]):
+                            flt = v.generators[0].ifs
+                            if len(flt) == 1 and (_is_multi(flt[0], True, ps_) or
+                                                  (isinstance(flt[0], ast.UnaryOp) and isinstance(flt[0].op, ast.Not) and _is_multi(flt[0].operand, False, ps_))):
                                 ok = True
+                                built_by.append(st_)
+                # ... or loop with a test
+                for lp in [s for s in stmts_of(cm.node) if isinstance(s, ast.For) and norm(unwrap(s.iter)) == P + '.items()'
+                           and isinstance(s.target, ast.Tuple) and len(s.target.elts) == 2]:
+                    ps_ = norm(lp.target.elts[1])
+                    apps = [c for c in ast.walk(lp) if isinstance(c, ast.Call) and isinstance(c.func, ast.Attribute) and
+                            c.func.attr in ('append', 'add') and norm(c.func.value) == t.id]
+                    if apps and all(conds(cm, c) and all(_is_multi(ct, cp, ps_) for ct, cp in conds(cm, c)) for c in apps):
+                        # (and every entry with several providers reaches an append: the test is the only condition)
+                        ok = True
+                        built_by.append(lp)
     rep.check('R04.a', fkey(cm, 'conflicts'), ok, 'any name with more than one provider raises NameError' if ok else
               'a name with several providers does not (always) raise NameError', core, rz[0] if rz else cm.node)
     if rz:
         ifs = [s for s in stmts_of(cm.node) if isinstance(s, ast.If) and any(r in list(ast.walk(s)) for r in rz)]
         ok = bool(ifs) and cfg.must_pass(cfg.nodes_of_all(ifs), cfg.entry, cfg.exit, normal_only=True) and \
-            all(cfg.must_pass(cfg.nodes_of(outer[0]), cfg.entry, cfg.nodes_of(i)) for i in ifs)
+            all(cfg.must_pass(cfg.nodes_of(outer[0]), cfg.entry, cfg.nodes_of(i)) for i in ifs) and \
+            all(cfg.must_pass(cfg.nodes_of(outer[0]), cfg.entry, cfg.nodes_of(b)) and
+                (not src_loops or cfg.must_pass(cfg.nodes_of(src_loops[0]), cfg.entry, cfg.nodes_of(b))) for b in built_by)
         rep.check('R04.a', fkey(cm, 'conflict test on every path'), ok, 'the conflict test runs after all sources are recorded, on every path' if ok else
                   'the conflict test can be bypassed or runs before all sources are recorded', core, ifs[0] if ifs else cm.node)
     # per-middleware check
-    calls = [c for c in ast.walk(outer[0]) if isinstance(c, ast.Call) and call_name(c) == 'check_middleware' and norm(c.args[0]) == mwv]
+    calls = [c for c in ast.walk(outer[0]) if isinstance(c, ast.Call) and call_name(c) == 'check_middleware' and c.args and norm(c.args[0]) == mwv]
     ok = len(calls) == 1 and isinstance(stmt_of(core, calls[0]), ast.Expr) and stmt_of(core, calls[0]) in outer[0].body
     rep.check('R04.d', fkey(cm, 'check_middleware(mw)'), ok, 'check_middleware runs for every middleware' if ok else
               'check_middleware is not called unconditionally for every middleware', core, calls[0] if calls else outer[0])
@@ -123,63 +193,116 @@ def run(rep):
     cc = [c for c in walk_body(bi.node) if isinstance(c, ast.Call) and call_name(c) == 'check_middlewares']
     if len(cc) != 1:
         raise AnalysisError('BoundRoute.__init__: expected one check_middlewares call')
-    uni = Universe(['URL', 'BUILTINS', 'RES'])
-
-    def model(it, e):
-        if isinstance(e, ast.Call) and call_name(e) in ('set', 'frozenset', 'list', 'tuple') and len(e.args) == 1:
-            t = norm(e.args[0])
-            if t in ('self.converters', 'self.converters.keys()', 'self.path_args'):
-                return uni['URL']
-            if t == 'RESERVED_ARGS':
-                return uni['BUILTINS']
-            if t in ('self.resources', 'self.resources.keys()'):
-                return uni['RES']
-        if isinstance(e, ast.Name) and e.id == 'RESERVED_ARGS':
-            return uni['BUILTINS']
-        return None
-    it = SetInterp(uni, model=model)
-    try:
-        for s in stmts_of(bi.node):
-            if s is stmt_of(route, cc[0]):
-                break
-            if isinstance(s, ast.Assign) and any(isinstance(n, ast.Name) and n.id == norm(cc[0].args[1]) for n in ast.walk(s.targets[0])):
-                it.exec_stmt(s)
-        mp = it.eval(cc[0].args[1])
-    except Unmodelled as e:
-        raise AnalysisError('BoundRoute.__init__ source map: %s' % e)
-    ok = isinstance(mp, dict) and sorted(mp.values()) == sorted([uni['URL'], uni['BUILTINS'], uni['RES']])
-    rep.check('R04.a', fkey(bi, 'source map'), ok, 'sources url / builtins / resources are each passed to the conflict check: %s' % sorted(mp) if ok else
-              'the source map given to check_middlewares lacks one of url / builtins / resources', route, cc[0])
-    ok = norm(cc[0].args[0]) == 'self.middlewares'
+    src_arg = argn(cc[0], cps[1] if len(cps) > 1 else 'args_dict', 1)
+    if src_arg is None:
+        rep.fail('R04.a', fkey(bi, 'source map'), 'check_middlewares is called without the url / builtins / resources sources', route, cc[0])
+    else:
+        try:
+            uni, mp = chain.eval_bind_sources(repo, src_arg, stmt_of(route, cc[0]))
+        except Unmodelled as e:
+            raise AnalysisError('BoundRoute.__init__ source map: %s' % e)
+        ok = isinstance(mp, dict) and sorted(mp.values(), key=repr) == sorted([uni['URL'], uni['BUILTINS'], uni['RES']], key=repr)
+        rep.check('R04.a', fkey(bi, 'source map'), ok, 'sources url / builtins / resources are each passed to the conflict check: %s' % sorted(mp) if ok else
+                  'the source map given to check_middlewares lacks one of url / builtins / resources', route, cc[0])
+    a0 = argn(cc[0], cps[0], 0)
+    ok = a0 is not None and norm(a0) == 'self.middlewares'
     rep.check('R04.a', fkey(bi, 'merged list checked'), ok, 'the merged middleware list is what is checked' if ok else
               'check_middlewares is not given the merged middleware list', route, cc[0])
     ls = layers_of_var(bi.node, 'self.resources')
     ok = len(ls) == 2
     rep.check('R04.a', fkey(bi, 'resources both levels'), ok, 'self.resources holds application and route resources' if ok else
               'self.resources does not combine application and route resources', route, bi.node)
-    rep.floor('R04.a', 8)
 
-    # ---- R04.b -----------------------------------------------------------
+
+def request_phase_removed(repo):
+    """The reserved names make_middleware_chain takes out of the preprovided set for the request phase, by abstract
+    interpretation over one atom per reserved name.  -> set of names."""
+    core, route = repo.mod(CORE), repo.mod(ROUTE)
+    reserved = sorted(set(route.const('RESERVED_ARGS')))
+    if len(reserved) > 7:
+        raise AnalysisError('RESERVED_ARGS has %d names (the per-name universe holds 7)' % len(reserved))
+    mm = core.func('make_middleware_chain')
+    ps = mm.params()
+    uni = Universe(['PRE'] + ['n:' + n for n in reserved])
+    avail = {}
+
+    def model(it, e):
+        if isinstance(e, ast.Call) and call_name(e) == 'make_chain':
+            fin, pre = argn(e, 'final_func', 2), argn(e, 'preprovided', 3)
+            if fin is not None and pre is not None:
+                ph = 'endpoint' if norm(fin) == ps[1] else ('render' if norm(fin) == ps[2] else 'request')
+                avail[ph] = it.as_set(it.eval(pre), pre)
+            return Opaque(e, 'chain')
+        return None
+    it = SetInterp(uni, env={ps[3]: uni['PRE']}, elems=dict((repr(n), uni['n:' + n]) for n in reserved), model=model)
+    it.fold = lambda e: repo.try_fold(e, core)
+    for p in ps[:3]:
+        it.env[p] = Opaque(None, p)
+    for st in mm.node.body:
+        if isinstance(st, ast.Return):
+            continue
+        try:
+            it.exec_stmt(st)
+        except Unmodelled:
+            # statements about the phase lists are not this rule's business; a name they bind is unknown from here on
+            for n in ast.walk(st):
+                if isinstance(n, ast.Name) and isinstance(n.ctx, ast.Store):
+                    it.env[n.id] = Opaque(st)
+    if 'request' not in avail:
+        raise AnalysisError('make_middleware_chain: request-phase availability not found')
+    a = avail['request']
+    if not isinstance(a, int) or not (a & uni['PRE']):
+        raise AnalysisError('make_middleware_chain: request-phase availability is not derived from preprovided')
+    return set(n for n in reserved if not (a & uni['PRE'] & uni['n:' + n])), mm
+
+
+def check_reserved_tables(rep):
+    repo = rep.repo
+    core, route, app = repo.mod(CORE), repo.mod(ROUTE), repo.mod(APP)
     reserved = set(route.const('RESERVED_ARGS'))
     req_builtins = set(route.const('_REQUEST_BUILTINS'))
     injected = {}
     for q in ('BoundRoute.execute',):
         f = route.func(q)
-        inj = [c for c in walk_body(f.node) if isinstance(c, ast.Call) and call_name(c) == 'inject'][0]
-        for l in layers_of_var(f.node, norm(inj.args[1])):
+        injs = [c for c in walk_body(f.node) if isinstance(c, ast.Call) and call_name(c) == 'inject']
+        if not injs or len(injs[0].args) < 2:
+            raise AnalysisError('%s: inject call not found' % q)
+        for l in layers_of_value(f.node, injs[0].args[1]):
             if l.kind == 'literal':
                 for k in l.keys:
                     injected[k] = q
     d = app.func('Application.dispatch')
-    for l in layers_of_var(d.node, 'base_params'):
-        if l.kind == 'literal':
-            for k in l.keys:
-                injected[k] = 'Application.dispatch'
+    exe = [c for c in walk_body(d.node) if isinstance(c, ast.Call) and norm(c.func).endswith('.execute')]
+    star = [k.value for c in exe for k in c.keywords if k.arg is None]
+    todo = [norm(x) for x in star] or ['base_params']
+    seen = set()
+    while todo:
+        v = todo.pop()
+        if v in seen:
+            continue
+        seen.add(v)
+        for l in layers_of_var(d.node, v):
+            if l.kind == 'literal':
+                for k in l.keys:
+                    injected[k] = 'Application.dispatch'
+            elif isinstance(l.node, ast.Name):
+                todo.append(l.node.id)
     inner = core.const('_INNER_NAME')
     injected[inner] = '_INNER_NAME'
-    tmpl = core.const('_REQ_INNER_TMPL')
-    if 'context = endpoint(' in tmpl:
-        injected['context'] = '_REQ_INNER_TMPL'
+    # the request core binds the endpoint result to the local ``context`` which render functions then receive by name
+    import textwrap
+    from .. import codegen
+    te = codegen.TemplateEval(repo, core.func('_create_request_inner')).run()
+    for k in te.sinks:
+        code = k['kw'].get('code_str', k['args'][0] if k['args'] else None)
+        if k['name'] == 'compile_code' and isinstance(code, codegen.Tmpl):
+            try:
+                tree = ast.parse(textwrap.dedent(codegen.render(code.parts).text))
+            except (SyntaxError, AnalysisError):
+                continue
+            for n in ast.walk(tree):
+                if isinstance(n, ast.Assign) and isinstance(n.value, ast.Call) and any(isinstance(t, ast.Name) and t.id == 'context' for t in n.targets):
+                    injected['context'] = 'the generated request core (%s = %s(...))' % ('context', norm(n.value.func))
     for name, src in sorted(injected.items()):
         rep.check('R04.b', '%s::RESERVED_ARGS::%s' % (ROUTE, name), name in reserved,
                   "built-in '%s' (injected by %s) is reserved" % (name, src) if name in reserved else
@@ -189,26 +312,20 @@ def run(rep):
     rep.check('R04.b', '%s::RESERVED_ARGS::exact' % ROUTE, not extra and len(reserved) >= 6,
               'RESERVED_ARGS is exactly the set of injected built-ins %s' % sorted(reserved) if not extra and len(reserved) >= 6 else
               'RESERVED_ARGS %s vs injected %s' % (sorted(reserved), sorted(injected)), route)
-    mm = core.func('make_middleware_chain')
-    removed = None
-    for s in stmts_of(mm.node):
-        if isinstance(s, ast.Assign) and isinstance(s.value, ast.BinOp) and isinstance(s.value.op, ast.Sub) and \
-                norm(s.value.left) == 'set(%s)' % mm.params()[3]:
-            try:
-                removed = set(repo.fold(s.value.right, core))
-            except Exception:
-                removed = None
-    ok = removed is not None and removed == reserved - req_builtins
+    removed, mm = request_phase_removed(repo)
+    ok = removed == reserved - req_builtins
     rep.check('R04.b', fkey(mm, 'names removed from request availability'), ok,
               'request/endpoint phases lose exactly RESERVED_ARGS - _REQUEST_BUILTINS = %s' % sorted(reserved - req_builtins) if ok else
               'names removed from request-phase availability (%s) differ from RESERVED_ARGS - _REQUEST_BUILTINS (%s)'
-              % (sorted(removed) if removed is not None else None, sorted(reserved - req_builtins)), core, mm.node)
+              % (sorted(removed), sorted(reserved - req_builtins)), core, mm.node)
     ok = req_builtins <= reserved and req_builtins == {'request', '_application', '_route', '_dispatch_state'}
     rep.check('R04.b', '%s::_REQUEST_BUILTINS' % ROUTE, ok, 'request built-ins are %s' % sorted(req_builtins) if ok else
               '_REQUEST_BUILTINS changed: %s' % sorted(req_builtins), route)
-    rep.floor('R04.b', 8)
 
-    # ---- R04.c -----------------------------------------------------------
+
+def check_reserved_resources(rep):
+    repo = rep.repo
+    app = repo.mod(APP)
     ai = app.func('Application.__init__')
     acfg = cfg_of(ai)
     uni2 = Universe(['RESERVED', 'RES'])
@@ -218,26 +335,53 @@ def run(rep):
             return uni2['RESERVED']
         if norm(e) in ('self.resources', 'self.resources.keys()'):
             return uni2['RES']
-        if isinstance(e, ast.Call) and call_name(e) in ('set', 'frozenset', 'list') and len(e.args) == 1 and \
+        if isinstance(e, ast.Call) and call_name(e) in ('set', 'frozenset', 'list', 'tuple', 'sorted') and len(e.args) == 1 and \
                 norm(e.args[0]) in ('self.resources', 'RESERVED_ARGS', 'self.resources.keys()'):
             return uni2['RES'] if 'resources' in norm(e.args[0]) else uni2['RESERVED']
         return None
     rz = [r for r in raises_of(ai) if raise_type(r) == 'NameError']
     ok = False
     guard_if = None
+    top = list(ai.node.body)
     for r in rz:
         for t, p in conds(ai, r):
-            if p is True and isinstance(t, ast.Name):
-                srcs = [s for s in stmts_of(ai.node) if isinstance(s, ast.Assign) and norm(s.targets[0]) == t.id]
-                for s in srcs:
-                    it2 = SetInterp(uni2, model=model2)
-                    try:
-                        v = it2.eval(s.value)
-                    except Unmodelled:
-                        continue
-                    if v == uni2['RESERVED'] & uni2['RES']:
-                        ok = True
-                        guard_if = [i for i in stmts_of(ai.node) if isinstance(i, ast.If) and i.test is t]
+            if p is not True or not isinstance(t, (ast.Name, ast.BinOp, ast.Call, ast.ListComp, ast.SetComp)):
+                continue
+            tnames = set(n.id for n in ast.walk(t) if isinstance(n, ast.Name)) - {'RESERVED_ARGS', 'self', 'set', 'frozenset', 'list', 'any', 'len'}
+            encl = [i for i in stmts_of(ai.node) if isinstance(i, ast.If) and any(x is r for x in ast.walk(i))
+                    and (any(x is t for x in ast.walk(i.test)) or
+                         (isinstance(t, ast.Name) and any(isinstance(n, ast.Name) and n.id == t.id for n in ast.walk(i.test))))]
+            if not encl:
+                continue
+            # value of the tested collection where the test stands: run the statements before it
+            it2 = SetInterp(uni2, model=model2)
+            for s in stmts_of(ai.node):
+                if s is encl[0]:
+                    break
+                if s not in top and not any(s in getattr(q, 'body', []) + getattr(q, 'orelse', []) for q in top if isinstance(q, ast.If)):
+                    continue
+                if not any(isinstance(n, ast.Name) and n.id in tnames for n in ast.walk(s)):
+                    continue
+                try:
+                    it2.exec_stmt(s)
+                except Unmodelled:
+                    for n in ast.walk(s):
+                        if isinstance(n, ast.Name) and isinstance(n.ctx, ast.Store):
+                            it2.env[n.id] = Opaque(s)
+            e = t
+            if isinstance(e, ast.Call) and call_name(e) in ('len', 'bool') and len(e.args) == 1:
+                e = e.args[0]
+            if isinstance(e, ast.Call) and call_name(e) == 'any' and len(e.args) == 1 and isinstance(e.args[0], (ast.GeneratorExp, ast.ListComp)) \
+                    and len(e.args[0].generators) == 1 and isinstance(e.args[0].generators[0].target, ast.Name):
+                # any(<test on x> for x in A)  <=>  {x in A | test} is non-empty
+                g = e.args[0].generators[0]
+                e = ast.copy_location(ast.ListComp(elt=ast.Name(id=g.target.id, ctx=ast.Load()), generators=[ast.comprehension(
+                    target=g.target, iter=g.iter, ifs=list(g.ifs) + [e.args[0].elt], is_async=0)]), e)
+                ast.fix_missing_locations(e)
+            v = it2.try_eval(e)
+            if v == uni2['RESERVED'] & uni2['RES']:
+                ok = True
+                guard_if = encl[:1]
     rep.check('R04.c', fkey(ai, 'resources vs reserved'), ok, 'resources & RESERVED_ARGS non-empty => NameError (exact intersection)' if ok else
               'Application.__init__ does not raise NameError for resources named like built-ins', app, rz[0] if rz else ai.node)
     binds = [s for s in stmts_of(ai.node) if any(isinstance(c, ast.Call) and (call_tail(c) == 'bind' or norm(c.func) == 'self.add') for c in ast.walk(s))
@@ -246,20 +390,22 @@ def run(rep):
     rep.check('R04.c', fkey(ai, 'before binding'), ok, 'the reserved-name test precedes every bind/add' if ok else
               'routes can be bound before the reserved-name test', app, ai.node)
     res_asg = [s for s in stmts_of(ai.node) if isinstance(s, ast.Assign) and norm(s.targets[0]) == 'self.resources']
-    ok = len(res_asg) == 1 and guard_if and acfg.must_pass(acfg.nodes_of(res_asg[0]), acfg.entry, acfg.nodes_of_all(guard_if))
+    ok = bool(res_asg) and guard_if and acfg.must_pass(acfg.nodes_of_all(res_asg), acfg.entry, acfg.nodes_of_all(guard_if))
     rep.check('R04.c', fkey(ai, 'self.resources assigned first'), bool(ok), 'the test sees the resources given to the constructor' if ok else
               'self.resources is not assigned before the reserved-name test', app, ai.node)
 
-    # ---- R04.d -----------------------------------------------------------
+
+def check_slots(rep):
+    repo = rep.repo
+    core, app = repo.mod(CORE), repo.mod(APP)
     slots = {}
     for q in ('check_middleware', 'Middleware.requires', 'Middleware.arguments'):
         f = core.func(q)
         for s in stmts_of(f.node):
-            if isinstance(s, ast.For) and isinstance(s.iter, (ast.Tuple, ast.List)):
-                try:
-                    slots[q] = tuple(repo.fold(s.iter, core))
-                except Exception:
-                    pass
+            if isinstance(s, ast.For):
+                v = repo.try_fold(s.iter, core)
+                if isinstance(v, (tuple, list)) and v and all(isinstance(x, str) for x in v):
+                    slots[q] = tuple(v)
     want = tuple(sorted(chain.PHASES))
     for q in ('check_middleware', 'Middleware.requires', 'Middleware.arguments'):
         got = tuple(sorted(slots.get(q, ())))
@@ -267,33 +413,56 @@ def run(rep):
                   '%s iterates slots %s, make_middleware_chain consumes %s' % (q, got, want), core, core.func(q).node)
     ckm = core.func('check_middleware')
     rz = raises_of(ckm)
-    first_next = [r for r in rz if raise_type(r) == 'TypeError' and
-                  has_cond(conds(ckm, r), lambda t: "get_arg_names(func)[0] == 'next'" in norm(t) or "get_arg_names(func)[0] != 'next'" in norm(t),
-                           False if any("== 'next'" in norm(t) for t, p in conds(ckm, r)) else True)]
-    # polarity: "if not X == 'next': raise" gives (X == 'next', False)
+
+    def first_param(e):
+        """``e`` is ``get_arg_names(f)[0]`` (possibly under a local name)."""
+        e = chain._deref(ckm, e)
+        return isinstance(e, ast.Subscript) and isinstance(e.slice, ast.Constant) and e.slice.value == 0 and \
+            isinstance(e.value, ast.Call) and call_name(e.value) == 'get_arg_names' and len(e.value.args) >= 1 and \
+            not (len(e.value.args) > 1 or e.value.keywords)
     ok = False
     for r in rz:
         if raise_type(r) != 'TypeError':
             continue
         for t, p in conds(ckm, r):
-            n = norm(t)
-            if "[0] == 'next'" in n and p is False:
-                ok = True
-            if "[0] != 'next'" in n and p is True:
-                ok = True
+            if isinstance(t, ast.Compare) and len(t.ops) == 1 and isinstance(t.ops[0], (ast.Eq, ast.NotEq)):
+                a, b = t.left, t.comparators[0]
+                for x, y in ((a, b), (b, a)):
+                    if first_param(x) and repo.try_fold(y, core) == 'next':
+                        if (isinstance(t.ops[0], ast.Eq) and p is False) or (isinstance(t.ops[0], ast.NotEq) and p is True):
+                            ok = True
     rep.check('R04.d', fkey(ckm, 'first parameter next'), ok, "a slot function whose first parameter is not 'next' raises TypeError" if ok else
               "check_middleware no longer rejects slot functions whose first parameter is not 'next'", core, ckm.node)
-    ok = any(raise_type(r) == 'TypeError' and has_cond(conds(ckm, r), lambda t: norm(t) == 'callable(func)', False) for r in rz)
+    ok = any(raise_type(r) == 'TypeError' and has_cond(conds(ckm, r), lambda t: isinstance(t, ast.Call) and call_name(t) == 'callable'
+                                                       and len(t.args) == 1 and isinstance(t.args[0], ast.Name), False) for r in rz)
     rep.check('R04.d', fkey(ckm, 'callable'), ok, 'a non-callable slot raises TypeError' if ok else 'non-callable slots are not rejected', core, ckm.node)
+    ai = app.func('Application.__init__')
+    acfg = cfg_of(ai)
     acalls = [c for c in walk_body(ai.node) if isinstance(c, ast.Call) and call_name(c) == 'check_middlewares']
-    ok = len(acalls) == 1 and norm(acalls[0].args[0]) == 'self.middlewares' and \
+    ok = len(acalls) == 1 and bool(acalls[0].args) and norm(acalls[0].args[0]) == 'self.middlewares' and \
         acfg.must_pass(acfg.nodes_of(stmt_of(app, acalls[0])), acfg.entry, acfg.exit, normal_only=True)
     rep.check('R04.d', fkey(ai, 'check_middlewares(self.middlewares)'), ok, 'application-level middlewares are checked at construction' if ok else
               'Application.__init__ does not always check its middlewares', app, ai.node)
-    rep.floor('R04.d', 7)
 
-    # ---- R04.e -----------------------------------------------------------
-    rep.guard(chain.check_unresolved_raises, rep, 'R04.e')
-    rep.guard(chain.check_phase_sets, rep, 'R04.e', rule_pair='R04.e', rule_core_env='R04.e')
+
+def run(rep):
+    rep.decide('R04.a conflict map exhaustive; R04.b reserved-name tables agree; R04.c resources vs reserved; '
+               'R04.d middleware slots / next-first; R04.e next & context placement')
+    rep.decline('nothing of substance: Python raising the exceptions is assumed')
+    rep.rule('R04.a', 'exhaustiveness of the provided_by map; more than one provider => NameError')
+    rep.rule('R04.b', 'set equality between injected built-in names and RESERVED_ARGS')
+    rep.rule('R04.c', 'resources & RESERVED_ARGS non-empty => NameError before binding')
+    rep.rule('R04.d', 'slot tables agree; first parameter next; check_middleware for every middleware')
+    rep.rule('R04.e', 'next forbidden in endpoint/render; context only in render availability')
+    g = rep.guard
+    g(check_conflict_map, rep)
+    g(check_reserved_tables, rep)
+    g(check_reserved_resources, rep)
+    g(check_slots, rep)
+    g(chain.check_unresolved_raises, rep, 'R04.e')
+    g(chain.check_phase_sets, rep, 'R04.e', rule_pair='R04.e', rule_core_env='R04.e')
     if not rep.gaps:
+        rep.floor('R04.a', 8)
+        rep.floor('R04.b', 8)
+        rep.floor('R04.d', 7)
         rep.floor('R04.e', 10)
